@@ -127,7 +127,8 @@ def corpus(tree, min_size=1, max_size=4, distinct_sids=True, max_start=50):
     def build(draw):
         trees = draw(st.lists(tree, min_size=min_size, max_size=max_size))
         if distinct_sids:
-            start = draw(st.integers(1, max_start))
+            # 0 is a sentence id like any other (`#BOS 0`, `<s id="s0">`)
+            start = 0 if draw(st.integers(0, 5)) == 0 else draw(st.integers(1, max_start))
             sid = start
             for tr in trees:
                 tr["sid"] = sid
